@@ -134,7 +134,7 @@ def _lambda(ctx, t):
 
 
 def coupling_model_case(ctx, cfg, terms, eph=False, n_free=1, n_cells=2,
-                        checks=('mpo', 'termlist', 'bonds', 'conv', 'ed', 'group', 'export')):
+                        checks=('mpo', 'termlist', 'bonds', 'conv', 'ed', 'group', 'export', 'segment')):
     from tenpy.models.model import CouplingModel, MPOModel, NearestNeighborModel
     from tenpy.networks import mpo
     from tenpy.algorithms.exact_diag import ExactDiag
@@ -149,7 +149,14 @@ def coupling_model_case(ctx, cfg, terms, eph=False, n_free=1, n_cells=2,
     sorted_basis = any(list(s_.perm) != list(range(s_.dim)) for s_ in lat.unit_cell)
     orc0 = Md.Oracle(ctx, lat, ref, 1, unit_cell=[_twin(kind)] * len(lat.unit_cell)) \
         if (sorted_basis and not ref.infinite and 'export' in checks) else None
-    oracles = [orc] + ([orc0] if orc0 is not None else [])
+    # third oracle: a window shifted by one ring (finite: the system without its first ring) for extract_segment
+    spr = ref.N // ref.Ls[0]
+    if ref.infinite:
+        seg = (spr, spr + orc.n_cells * ref.N - 1)
+    else:
+        seg = (spr, ref.N - 1)
+    orc_seg = Md.Oracle(ctx, lat, ref, n_cells, window=seg) if ('segment' in checks and seg[1] - seg[0] + 1 >= max(spr, 2)) else None
+    oracles = [orc] + ([orc0] if orc0 is not None else []) + ([orc_seg] if orc_seg is not None else [])
     free = n_free
     hermitian = True
     has_exp = False
@@ -270,6 +277,21 @@ def coupling_model_case(ctx, cfg, terms, eph=False, n_free=1, n_cells=2,
             # scipy.sparse rejects object dtype: compared on the solver's path models / counterexamples only
             ctx.prove_eq(EDm.get_scipy_sparse_Hamiltonian(M).toarray(), O0,
                          'get_scipy_sparse_Hamiltonian(CouplingModel) == oracle in the standard basis (concrete only)' + suffix)
+    # ---- segments: MPOModel.extract_segment / MPO.extract_segment / ExactDiag.from_infinite_model keep the terms that lie
+    # completely inside the segment (and the explicit_plus_hc flag)
+    if 'segment' in checks:
+        if ref.infinite:
+            sg = mm.extract_segment(enlarge=orc.n_cells)
+            ctx.prove(sg.H_MPO.bc == 'segment' and sg.H_MPO.L == len(orc.sites), 'extract_segment(enlarge): segment MPO of the window')
+            ctx.prove_eq(Md.dense_mpo(sg.H_MPO, 1), O, 'dense(extract_segment(enlarge=n).H_MPO) == oracle of the window')
+            edi = ExactDiag.from_infinite_model(mm, enlarge=orc.n_cells)
+            edi.build_full_H_from_mpo()
+            ctx.prove_eq(Md.ed_matrix(edi), O, 'ExactDiag.from_infinite_model == oracle of the window')
+        if orc_seg is not None:
+            sg = mm.extract_segment(first=seg[0], last=seg[1])
+            ctx.prove(sg.H_MPO.L == seg[1] - seg[0] + 1 and tuple(sg.lat.segment_first_last) == seg, 'extract_segment(first, last): length')
+            ctx.prove_eq(Md.dense_mpo(sg.H_MPO, 1), orc_seg.H, 'dense(extract_segment(first, last).H_MPO) == oracle of the shifted window')
+        ctx.prove(mm.H_MPO.bc == lat.bc_MPS and mm.H_MPO.L == len(sites), 'extract_segment leaves the model unchanged')
     # ---- grouping sites keeps the operator (same Kronecker basis: neighbouring sites are merged in order)
     if 'group' in checks and len(sites) % 2 == 0:
         mg = MPOModel(Lt.build_lattice(cfg, site=site), H.copy())
